@@ -30,6 +30,9 @@ M = [
  ("C07-b-carry-loop", "C07", "format.go", "		i := prec - 1\n		for i >= 0 && d.dig[i] == '9' {\n			i--\n		}\n\n		if i == -1 {", "		i := prec - 1\n		for i > 0 && d.dig[i] == '9' {\n			i--\n		}\n\n		if i == -1 {"),
  ("C16-b-epow-series", "C16", "decomposed.go", "		sig: uint192{40, 0, 0},\n		exp: 0,\n	}, trunc)\n\n	for i := uint64(39); i > 1; i-- {\n		tmp, _ := d.quo(decomposed192{\n			sig: uint192{i, 0, 0},\n			exp: 0,\n		}, int8(0))\n\n		res, trunc = res.mul(tmp, trunc)\n		res, trunc = res.add1(trunc)\n	}\n\n	res, trunc = res.mul(d, trunc)\n	res, trunc = res.add1(trunc)\n\n	return res.powexp10(exp, trunc)", "		sig: uint192{20, 0, 0},\n		exp: 0,\n	}, trunc)\n\n	for i := uint64(19); i > 1; i-- {\n		tmp, _ := d.quo(decomposed192{\n			sig: uint192{i, 0, 0},\n			exp: 0,\n		}, int8(0))\n\n		res, trunc = res.mul(tmp, trunc)\n		res, trunc = res.add1(trunc)\n	}\n\n	res, trunc = res.mul(d, trunc)\n	res, trunc = res.add1(trunc)\n\n	return res.powexp10(exp, trunc)"),
  ("C18-c-rcp-trunc", "C18", "arith.go", "		res, trunc = res.rcp(trunc)\n		trunc *= -1\n	}\n\n	sig, exp := mode.reduce192(neg, res.sig, res.exp+exponentBias, trunc)", "		res, trunc = res.rcp(trunc)\n	}\n\n	sig, exp := mode.reduce192(neg, res.sig, res.exp+exponentBias, trunc)"),
+ ("C10-e-fromint-spurious-sticky", "C10", "convert.go", "				bl = i.BitLen()\n\n				if r.Sign() != 0 {\n					trunc = 1\n				}\n			}\n		}\n\n		ten", "				bl = i.BitLen()\n				trunc = 1\n			}\n		}\n\n		ten"),
+ ("C17-d-cbrt-5-iterations", "C17", "exp.go", "	for i := 0; i < 7; i++ {\n		cub, _ := res.mul(res, int8(0))", "	for i := 0; i < 5; i++ {\n		cub, _ := res.mul(res, int8(0))"),
+ ("C17-e-cbrt-6-iterations", "C17", "exp.go", "	for i := 0; i < 7; i++ {\n		cub, _ := res.mul(res, int8(0))", "	for i := 0; i < 6; i++ {\n		cub, _ := res.mul(res, int8(0))"),
  ("C20-c-log1p-index", "C20", "exp.go", "		if dExp > int16(-len(uint128PowersOf10)) {", "		if dExp >= int16(-len(uint128PowersOf10)) {"),
 ]
 suite = '--suite' in sys.argv
